@@ -434,7 +434,7 @@ impl Campaign for C07 {
     fn runs(&self, tier: Tier) -> u64 {
         match tier {
             Tier::Quick => 12_000 * 24,
-            Tier::Thorough => 60_000 * 448,
+            Tier::Thorough => 120_000 * 448,
         }
     }
     fn group(&self, tier: Tier) -> u64 {
